@@ -168,6 +168,7 @@ FullSync<'a, ItemType, BUFFER_SIZE, MAX_STREAMS> {
     #[inline(always)]
     fn send_derived(&self, arc_item: &Arc<ItemType>) -> bool {
         for stream_id in self.streams_manager.used_streams() {
+            vp!("mc.fan.read", *stream_id);
             if *stream_id == u32::MAX {
                 break
             }
